@@ -381,6 +381,11 @@ def directed():
             row("split_by_group", "7", "5", ["grp one"]), msg("8", [E("7", value="grp one"), E("7", value="grp two", ctype="has_group")])]),
         ("has_group on an edge leaving a no_op decision", [
             msg("1", S), row("no_op", "n", "1"), msg("2", [E("n", value="grp one", ctype="has_group", variable="@contact.groups")]), msg("3", [E("n")])]),
+        # ---- an explicit category name that is already the name of another category of the router (findings category-name-clash)
+        ("clash: explicit name equals a generated name", [wait("1", S), msg("2", [E("1", value="yes")], "A"), msg("3", [E("1", value="yeah", name="Yes")], "B")]),
+        ("clash: explicit name Other", [wait("1", S), msg("2", [E("1")], "A"), msg("3", [E("1", value="x", name="Other")], "B")]),
+        ("clash: explicit name No Response", [wait("1", S, no_response="60"), msg("2", [E("1", value="No Response")], "A"),
+                                              msg("3", [E("1", value="x", name="No Response")], "B")]),
         # ---- error classes
         ("err: edge from a missing row", [msg("1", S), msg("2", "nope")]),
         ("err: go_to into a no_op", [msg("1", S), row("no_op", "n", "1"), msg("2", "n"), row("go_to", "", [E("2")], ["n"])]),
